@@ -85,6 +85,20 @@ func safeIdentifier(name string) string {
 	return name
 }
 
+// safeQualifiedName applies safeIdentifier to every dot-separated part of a
+// (possibly schema-qualified) table name, so that a part that needs quoting is
+// quoted on its own and the qualifier dots stay outside the quotes.
+func safeQualifiedName(name string) string {
+	if !strings.Contains(name, ".") {
+		return safeIdentifier(name)
+	}
+	parts := strings.Split(name, ".")
+	for i, part := range parts {
+		parts[i] = safeIdentifier(part)
+	}
+	return strings.Join(parts, ".")
+}
+
 // escapeStringLiteral escapes a string for safe inclusion in a single-quoted
 // SQL literal, handling characters that can lead to SQL injection.
 func escapeStringLiteral(s string) string {
@@ -597,7 +611,7 @@ func (i *InsertStatement) SQL() string {
 	}
 
 	sb.WriteString("INSERT INTO ")
-	sb.WriteString(i.TableName)
+	sb.WriteString(safeQualifiedName(i.TableName))
 
 	if len(i.Columns) > 0 {
 		sb.WriteString(" (")
@@ -646,10 +660,10 @@ func (u *UpdateStatement) SQL() string {
 	}
 
 	sb.WriteString("UPDATE ")
-	sb.WriteString(u.TableName)
+	sb.WriteString(safeQualifiedName(u.TableName))
 	if u.Alias != "" {
 		sb.WriteString(" ")
-		sb.WriteString(u.Alias)
+		sb.WriteString(safeIdentifier(u.Alias))
 	}
 
 	sb.WriteString(" SET ")
@@ -695,10 +709,10 @@ func (d *DeleteStatement) SQL() string {
 	}
 
 	sb.WriteString("DELETE FROM ")
-	sb.WriteString(d.TableName)
+	sb.WriteString(safeQualifiedName(d.TableName))
 	if d.Alias != "" {
 		sb.WriteString(" ")
-		sb.WriteString(d.Alias)
+		sb.WriteString(safeIdentifier(d.Alias))
 	}
 
 	if len(d.Using) > 0 {
@@ -1227,11 +1241,11 @@ func tableRefSQL(t *TableReference) string {
 		sb.WriteString(t.Subquery.SQL())
 		sb.WriteString(")")
 	} else {
-		sb.WriteString(t.Name)
+		sb.WriteString(safeQualifiedName(t.Name))
 	}
 	if t.Alias != "" {
 		sb.WriteString(" ")
-		sb.WriteString(t.Alias)
+		sb.WriteString(safeIdentifier(t.Alias))
 	}
 	return sb.String()
 }
